@@ -55,6 +55,15 @@ pub fn check_adc(b: &[u8], loc: &mut Local, strict: bool) {
     };
     let rf = ref_adc_decode(b);
     loc.note(h, nontrivial, if real.is_ok() { "accept" } else { "reject" });
+    // the wrapper enum is an entry point of its own: it must return, and agree on accept / reject, for every input
+    match guard(|| AdcPacket::try_from(b).is_ok()) {
+        Err(p) => loc.violation(format!("panic:adc-wrapper:{}", panic_site(&p)), json!({"input": hex(b), "len": b.len(), "panic": p})),
+        Ok(w) => {
+            if strict && w != real.is_ok() {
+                loc.violation("adc:wrapper-disagrees", json!({"input": hex(b), "len": b.len(), "wrapper_accepts": w}));
+            }
+        }
+    }
     if let Ok(p) = &real {
         // accessors and Display rely on constructor invariants
         let r = guard(|| {
